@@ -83,8 +83,8 @@ func c16CompareArrays(ctx *vh.Ctx, c *c16Case, model *c16Out, arrays [][]int) bo
 		}
 		seen[sig] = true
 		ctx.Res.Disagree(vh.Disagreement{Signature: sig,
-			What:  fmt.Sprintf("the slice the caller handed to WithLambdaOption for Option %d (values %v, %d spare cells) holds %v in its backing array after the calls; the model says %v (no call writes a caller's array)", i, c.Store[i].Vals, c.Store[i].Spare, cells, model.Arrays[i]),
-			Case:  c, Model: model.Arrays, Impl: arrays})
+			What: fmt.Sprintf("the slice the caller handed to WithLambdaOption for Option %d (values %v, %d spare cells) holds %v in its backing array after the calls; the model says %v (no call writes a caller's array)", i, c.Store[i].Vals, c.Store[i].Spare, cells, model.Arrays[i]),
+			Case: c, Model: model.Arrays, Impl: arrays})
 		ok = false
 	}
 	return ok
